@@ -1107,7 +1107,7 @@ sexp sexp_apply (sexp ctx, sexp proc, sexp args) {
     if (sexp_context_interruptp(ctx)) {
       fuel = sexp_context_refuel(ctx);
       sexp_context_interruptp(ctx) = 0;
-      _ARG1 = sexp_global(ctx, SEXP_G_INTERRUPT_ERROR);
+      _PUSH(sexp_global(ctx, SEXP_G_INTERRUPT_ERROR));
       goto call_error_handler;
     }
     tmp1 = sexp_global(ctx, SEXP_G_THREADS_SCHEDULER);
